@@ -46,6 +46,10 @@
 #include <OpenVolumeMesh/Core/Iterators.hh>
 #include <OpenVolumeMesh/Config/Export.hh>
 
+#ifdef OVM_VERIF
+namespace ovm_verif { struct Access; }
+#endif
+
 namespace OpenVolumeMesh {
 
 // provide begin() and end() for the iterator pairs provided in TopologyKernel,
@@ -92,6 +96,11 @@ public:
     typedef OpenVolumeMeshEdge Edge;
     typedef OpenVolumeMeshFace Face;
     typedef OpenVolumeMeshCell Cell;
+
+#ifdef OVM_VERIF
+    // verification hook (guarded, add-only): state injection/inspection for the native replayer in /verif
+    friend struct ::ovm_verif::Access;
+#endif
 
     // Add StatusAttrib to list of friend classes
     // since it provides a garbage collection
